@@ -406,6 +406,7 @@ UNDERSTOOD = {'dict-get-missing-key', 'list-literal-class-dedup', 'union-of-subc
 	'generic-method-on-indirect-subclass', 'generic-method-nested-type-argument', 'operator-operand-indirect-subclass', 'shift-reflected-user-operand', 'spread-first-type-argument', 'dict-literal-empty-first-value'}
 
 CONTAINER_HEADS = ('list', 'dict', 'tuple')
+ALIAS_PREFIX = re.compile(r'\b[A-Za-z_][A-Za-z_0-9]*=')
 BINOP_DUNDER = {'Add': '__add__', 'Sub': '__sub__', 'Mult': '__mul__', 'Div': '__truediv__', 'Mod': '__mod__', 'BitOr': '__or__', 'BitAnd': '__and__',
 	'BitXor': '__xor__', 'LShift': '__lshift__', 'RShift': '__rshift__'}
 
@@ -588,7 +589,8 @@ def compare(run: Run, refl: Any, module: Any) -> tuple[list[dict[str, Any]], dic
 				# inside a generic class / function the type variable is free: nothing determined to compare
 				stats['template'] = stats.get('template', 0) + 1
 				continue
-			real = r0.pretty
+			# (a symbol typed through a type alias prints as `Alias=actual`: the alias name denotes the actual type)
+			real = ALIAS_PREFIX.sub('', r0.pretty)
 		except Exception as e:  # noqa: BLE001 - CPython evaluated this expression: inference must be total here
 			real = f'!{exc_enum(e)}'
 			message = str(e)[:300]
@@ -632,7 +634,7 @@ def compare(run: Run, refl: Any, module: Any) -> tuple[list[dict[str, Any]], dic
 			if not cj:
 				return None
 			try:
-				real_of[j] = refl.type_of(pick(cj, 'expr')).pretty
+				real_of[j] = ALIAS_PREFIX.sub('', refl.type_of(pick(cj, 'expr')).pretty)
 			except Exception as e:  # noqa: BLE001
 				real_of[j] = f'!{exc_enum(e)}'
 		return real_of[j]
